@@ -1,8 +1,8 @@
 package rules
 
 import (
-	"sort"
 	"go/ast"
+	"sort"
 	"strings"
 
 	"verif/checker/eng"
